@@ -6,5 +6,9 @@ cd "$HERE" || exit 1
 if ! PYTHONPATH="$HERE/.deps" /venv/bin/python -c "import hypothesis" 2>/dev/null; then
   PIP_NO_INDEX=1 /venv/bin/pip install --no-index --find-links /opt/veriftools/wheels --target "$HERE/.deps" hypothesis || exit 1
 fi
+# atheris (coverage-guided phase of C18 / C20); optional: without it that phase is skipped and says so in the evidence
+if ! PYTHONPATH="$HERE/.deps" /venv/bin/python -c "import atheris" 2>/dev/null; then
+  PIP_NO_INDEX=1 /venv/bin/pip install --no-index --find-links /opt/veriftools/wheels --target "$HERE/.deps" atheris >/dev/null 2>&1 || echo "setup: atheris not installable, coverage-guided phase will be skipped"
+fi
 PYTHONPATH="/repo:$HERE/shims:$HERE/.deps" RENO_LOG_LEVEL=40 /venv/bin/python -c "import hypothesis, numpy, scipy, renormalizer, renormalizer.tn; print('setup ok', hypothesis.__version__)" || exit 1
 mkdir -p "$HERE/evidence" "$HERE/out"
